@@ -4,6 +4,7 @@ import Driver.SchemaJson
 import GqlModel.Cost
 import GqlModel.OverlapCost
 import GqlModel.GraphCost
+import GqlModel.PossibleCost
 /-! Driver for C19 (and the plan part of C09):
 `{"schema":<SchemaDesc>,"doc":<astjson document>,"op":"name","vars":{"v":true,…},"world":<node>}` with
 `node = [[responseKey, runtimeType, node], …]`  →  the model's counters after PlanQuery and after executing the
@@ -108,7 +109,10 @@ def handle (j : Json) : Except String Json := do
     ("sizes", Json.arr #[Json.num (Validate.Overlap.nFieldsDoc doc), Json.num (Validate.Overlap.nSets doc),
       Json.num (Validate.Overlap.nSpreadNames doc), Json.num (Validate.Overlap.nFrags doc)]),
     ("locsDistinct", Json.bool (Validate.Overlap.locsDistinct doc)),
-    ("overlap", ov), ("graph", gr)]
+    ("overlap", ov), ("graph", gr),
+    -- possible-type tables validation asks for (VerifSitePossibleTypesEnumerated after one ValidateDocument) and its bound
+    ("ptValidation", Json.num (Validate.ptValidation s doc)),
+    ("ptBound", Json.num ((2 * Validate.maxPossible s * Validate.nSelectionItems s doc : Nat)))]
 
 end Driver.C19
 
